@@ -27,7 +27,11 @@ var solvers = []SolverCfg{
 
 func (prog *Program) buildSMT(o *Obligation, axioms []*Term, wantModel bool) string {
 	if o.Raw != "" {
-		return "; obligation " + o.Name + "\n; " + strings.ReplaceAll(o.Desc, "\n", " ") + "\n" + o.Raw
+		raw := o.Raw
+		if wantModel {
+			raw = "(set-option :produce-models true)\n" + strings.Replace(raw, "(check-sat)", "(check-sat)\n(get-model)", 1)
+		}
+		return "; obligation " + o.Name + "\n; " + strings.ReplaceAll(o.Desc, "\n", " ") + "\n" + raw
 	}
 	c := newCollector()
 	all := append([]*Term{}, o.Assume...)
